@@ -344,7 +344,10 @@ def run_m(qdir, script, timeout=600):
         return [], "TIMEOUT", -9
 
 
-def first_diff(c_lines, m_lines):
+def first_diff(c_lines, m_lines, heap_live_only=False):
+    """heap_live_only: in configurations with a third-party crypto back end the number of allocation attempts and frees
+    differs from the internal-crypto accounting the model carries (extra per-object blocks of the back end's glue);
+    only the number of live blocks is compared there"""
     n = max(len(c_lines), len(m_lines))
     for i in range(n):
         a = c_lines[i] if i < len(c_lines) else "<missing>"
@@ -352,12 +355,15 @@ def first_diff(c_lines, m_lines):
         ta = a.split(" ", 2)
         if len(ta) > 1 and (ta[1].startswith("spec_") or ta[1] == "secrets"):
             continue          # model-side only operations (the RFC specification)
+        if heap_live_only and len(ta) > 1 and ta[1] == "heap":
+            if a.split()[:3] == b.split()[:3]:
+                continue
         if a != b:
             return i, a, b
     return None
 
 
-def run_pairs(cdir, qdir, scripts, with_model=True):
+def run_pairs(cdir, qdir, scripts, with_model=True, heap_live_only=False):
     """scripts: list of (name, text).  Returns list of result dicts."""
     def one(item):
         name, text = item
@@ -366,7 +372,7 @@ def run_pairs(cdir, qdir, scripts, with_model=True):
         if with_model:
             m, merr, mrc = run_m(qdir, text)
             res.update({"m": m, "m_rc": mrc, "m_err": merr[-1000:] if mrc else ""})
-            res["diff"] = first_diff(c, m) if crc == 0 and mrc == 0 else None
+            res["diff"] = first_diff(c, m, heap_live_only) if crc == 0 and mrc == 0 else None
         return res
     with ThreadPoolExecutor(max_workers=JOBS) as ex:
         return list(ex.map(one, scripts))
